@@ -171,41 +171,85 @@ func init() {
 			o.Check(!loopBackWithout(o, ml, IsInstr(mg), e.CutContradicting(a1, a2, found)), "merge-forced-end", "a submission whose end lies inside the stored alert's range must be merged with it (otherwise the end time can move backwards)", mg)
 			o.Check(!loopBackWithout(o, ml, IsInstr(mg), e.CutContradicting(b1, b2, found)), "merge-forced-start", "a submission whose start lies inside the stored alert's range must be merged with it (otherwise the earliest start is lost)", mg)
 		}
-		// Merge
+		// Merge: the result is the younger alert (later UpdatedAt; the argument on a tie) with the earliest
+		// start and, by the table below, possibly the older alert's end.  The two alerts get their roles by a
+		// recursive call with swapped arguments or by swapping two locals; the obligations are stated per role
+		// assignment and evaluated on the paths of that assignment.
 		m := o.Fn("(*am/alert.Alert).Merge")
 		older := L("(p0.UpdatedAt <t recv.UpdatedAt)", true)
-		swap := o.One(e.Calls(m, "(*am/alert.Alert).Merge"), "swap", "Merge must normalise so that the younger submission wins", m)
-		o.Check(e.Arg(swap, 0) == "p0" && e.Arg(swap, 1) == "recv", "swap-args", "the normalising call must swap the two alerts", swap)
-		o.Guarded(swap, "swap-guard", "swapping", older)
-		o.Table(m, "merge-swap", []Row{{Name: "argument is older", Assume: A(older), Ret: [][]string{Vals(e.X(m, swap.(*ssa.Call)))}}})
-		res := "&res:am/alert.Alert"
-		base := e.StoresTo(m, res)
-		o.Check(len(base) == 1 && e.X(m, base[0].Val) == "*p0", "base", "the result must start as a copy of the younger alert", nil)
-		for _, st := range e.StoresTo(m, res+".Alert.StartsAt") {
-			o.Site(st, "res.StartsAt := "+e.X(m, st.Val))
-			o.Check(e.X(m, st.Val) == "recv.Alert.StartsAt", "start-value", "the merged start can only come from the other alert", st)
-			o.Guarded(st, "start-guard", "taking the other alert's start", L("(recv.Alert.StartsAt <t p0.Alert.StartsAt)", true))
+		o.Check(e.CountLitEdges(m, older)+e.CountLitEdges(m, older.Neg()) > 0, "swap", "Merge must normalise so that the younger submission wins: it no longer compares the two UpdatedAt", fnFirst(m))
+		swaps := e.Calls(m, "(*am/alert.Alert).Merge")
+		for _, swap := range swaps {
+			o.Check(e.Arg(swap, 0) == "p0" && e.Arg(swap, 1) == "recv", "swap-args", "the normalising call must swap the two alerts", swap)
+			o.Guarded(swap, "swap-guard", "swapping", older)
 		}
-		o.Forced(m, "start-forced", "the earliest start must win", isStoreAddr(e, res+".Alert.StartsAt"), older.Neg(), L("(recv.Alert.StartsAt <t p0.Alert.StartsAt)", true))
-		oRes := L("(*model.Alert).Resolved(p0.Alert)", true)
-		aRes := L("(*model.Alert).Resolved(recv.Alert)", true)
-		later := L("(p0.Alert.EndsAt <t recv.Alert.EndsAt)", true)
-		tmo := L("recv.Timeout", true)
-		isEnd := isStoreAddr(e, res+".Alert.EndsAt")
-		for _, st := range e.StoresTo(m, res+".Alert.EndsAt") {
-			o.Site(st, "res.EndsAt := "+e.X(m, st.Val))
-			o.Check(e.X(m, st.Val) == "recv.Alert.EndsAt", "end-value", "the merged end can only come from the other alert", st)
-			o.Guarded(st, "end-later", "taking the other alert's end", later)
+		if len(swaps) > 0 {
+			o.Table(m, "merge-swap", []Row{{Name: "argument is older", Assume: A(older), Ret: [][]string{Vals(e.X(m, swaps[0].(*ssa.Call)))}}})
 		}
-		nv := []func(ssa.Instruction) bool{isEnd}
-		o.Table(m, "merge-end", []Row{
-			{Name: "younger resolved, older resolved later", Assume: A(older.Neg(), oRes, aRes, later), Must: nv},
-			{Name: "younger resolved, older not resolved", Assume: A(older.Neg(), oRes, aRes.Neg()), Never: nv},
-			{Name: "younger resolved, older resolved earlier", Assume: A(older.Neg(), oRes, aRes, later.Neg()), Never: nv},
-			{Name: "younger firing, older explicit later end", Assume: A(older.Neg(), oRes.Neg(), later, tmo.Neg()), Must: nv},
-			{Name: "younger firing, older timeout end", Assume: A(older.Neg(), oRes.Neg(), later, tmo), Never: nv},
-			{Name: "younger firing, older earlier end", Assume: A(older.Neg(), oRes.Neg(), later.Neg()), Never: nv},
-		})
+		var resAlloc *ssa.Alloc
+		for _, in := range AllInstrs(m) {
+			if al, ok := in.(*ssa.Alloc); ok && typeKey(al.Type()) == "am/alert.Alert" && al.Heap {
+				resAlloc = al
+			}
+		}
+		o.Require(resAlloc != nil, "base", "Merge no longer builds its result in a fresh Alert", nil)
+		res := e.X(m, resAlloc)
+		role := func(tag string, assume LitM, Y, O string) {
+			r := (&Walk{Fn: m, Cut: e.CutContradicting(assume)}).FromEntry()
+			under := func(target ssa.Instruction, lits ...LitM) bool {
+				cut := e.CutLits(lits...)
+				contra := e.CutContradicting(assume)
+				return !(&Walk{Fn: m, Cut: func(b *ssa.BasicBlock, s int) bool { return cut(b, s) || contra(b, s) }}).FromEntry().Has(target)
+			}
+			one := func(st *ssa.Store) string { return strings.Join(e.XsAt(r, st, st.Val), " | ") }
+			nb := 0
+			for _, st := range e.StoresTo(m, res) {
+				if r.Has(st) {
+					nb++
+					o.Check(one(st) == "*"+Y, "base|"+tag, "the result must start as a copy of the younger alert ("+Y+"), starts as "+one(st), st)
+				}
+			}
+			o.Check(nb >= 1, "base|"+tag, "the result is never initialised", nil)
+			earlier := L("("+O+".Alert.StartsAt <t "+Y+".Alert.StartsAt)", true)
+			for _, st := range e.StoresTo(m, res+".Alert.StartsAt") {
+				if !r.Has(st) {
+					continue
+				}
+				o.Site(st, tag+": res.StartsAt := "+one(st))
+				o.Check(one(st) == O+".Alert.StartsAt", "start-value|"+tag, "the merged start can only come from the other alert, is "+one(st), st)
+				o.Check(under(st, earlier), "start-guard|"+tag, "taking the other alert's start without it being the earlier one", st)
+			}
+			isStart, isEnd := isStoreAddr(e, res+".Alert.StartsAt"), isStoreAddr(e, res+".Alert.EndsAt")
+			if o.Check(e.CountLitEdges(m, earlier)+e.CountLitEdges(m, earlier.Neg()) > 0 || len(e.EdgesAsserting(m, earlier))+len(e.EdgesAsserting(m, earlier.Neg())) > 0, "start-forced|"+tag, "Merge no longer compares the two start times", fnFirst(m)) {
+				rr := (&Walk{Fn: m, Cut: e.CutContradicting(assume, earlier), Barrier: isStart}).FromEntry()
+				o.Check(len(rr.Returns()) == 0, "start-forced|"+tag, "the earliest start must win", firstRet(rr.Returns()))
+			}
+			yRes := L("(*model.Alert).Resolved("+Y+".Alert)", true)
+			oRes := L("(*model.Alert).Resolved("+O+".Alert)", true)
+			later := L("("+Y+".Alert.EndsAt <t "+O+".Alert.EndsAt)", true)
+			tmo := L(O+".Timeout", true)
+			for _, st := range e.StoresTo(m, res+".Alert.EndsAt") {
+				if !r.Has(st) {
+					continue
+				}
+				o.Site(st, tag+": res.EndsAt := "+one(st))
+				o.Check(one(st) == O+".Alert.EndsAt", "end-value|"+tag, "the merged end can only come from the other alert, is "+one(st), st)
+				o.Check(under(st, later), "end-later|"+tag, "taking the other alert's end without it being the later one", st)
+			}
+			nv := []func(ssa.Instruction) bool{isEnd}
+			o.Table(m, "merge-end|"+tag, []Row{
+				{Name: "younger resolved, older resolved later", Assume: A(assume, yRes, oRes, later), Must: nv},
+				{Name: "younger resolved, older not resolved", Assume: A(assume, yRes, oRes.Neg()), Never: nv},
+				{Name: "younger resolved, older resolved earlier", Assume: A(assume, yRes, oRes, later.Neg()), Never: nv},
+				{Name: "younger firing, older explicit later end", Assume: A(assume, yRes.Neg(), later, tmo.Neg()), Must: nv},
+				{Name: "younger firing, older timeout end", Assume: A(assume, yRes.Neg(), later, tmo), Never: nv},
+				{Name: "younger firing, older earlier end", Assume: A(assume, yRes.Neg(), later.Neg()), Never: nv},
+			})
+		}
+		role("argument younger", older.Neg(), "p0", "recv")
+		if len(swaps) == 0 {
+			role("receiver younger", older, "recv", "p0")
+		}
 		o.MinSites(6)
 	})
 
